@@ -810,8 +810,9 @@ template<typename FloatType> const FloatType* TasmanianSparseGrid::formCanonical
     if ((domain_transform_a.size() != 0) || (conformal_asin_power.size() != 0)){
         int num_dimensions = base->getNumDimensions();
         x_temp = Data2D<FloatType>(num_dimensions, num_x, std::vector<FloatType>(x, x + Utils::size_mult(num_dimensions, num_x)));
-        mapConformalTransformedToCanonical(num_dimensions, num_x, x_temp);
+        // formTransformedPoints() applies the conformal map first and the linear map second, the inverse goes in the opposite order
         if (domain_transform_a.size() != 0) mapTransformedToCanonical(num_dimensions, num_x, base->getRule(), x_temp.getStrip(0));
+        mapConformalTransformedToCanonical(num_dimensions, num_x, x_temp);
         return x_temp.getStrip(0);
     }else{
         return x;
